@@ -12,10 +12,17 @@
      SPEC : the property: every packet reports what it reports when the packets of its connection <conn>
             are run ALONE (fresh state, same capacity) through the same concrete model; `-` when the trace
             does not stay within capacity (the property has that hypothesis).
+   kind H (HTTP analyzer, HTTP/1.x traffic):  <a> H <cap> <conn>:<t ms>:<frame hex> ...
+     MODEL: Model/HttpAnalyzer.v (packet level, flow table of capacity <cap>) with the HTTP/1 recogniser of
+            Model/HttpRecog.v as the two parsers; tokens joined by ';':
+            ERR | - | Q.<method hex>.<uri hex>.<10|11>.<name hex>=<value hex>,... | R.<10|11>.<status>.<headers>  (as EC09).
+            The recogniser is valid on payloads of bytes 1..127 that do not start an HTTP/2 preface: the generator
+            of kind H emits HTTP/1 connections only.
+     SPEC : as for L/T (every connection alone; `-` outside capacity).
    <a> (t|l|h|u) names the analyzer for the harness and is not read here. *)
 From Coq Require Import List NArith ZArith Bool.
 From Coq Require Import Strings.Byte.
-From HN Require Import Base.Bytes Base.Keyed Model.Replay Model.TlsAnalyzer Gen.Mtu.
+From HN Require Import Base.Bytes Base.Keyed Base.Cache Model.Replay Model.TlsAnalyzer Model.HttpAnalyzer Gen.Mtu.
 From HN Require Model.TcpAnalyzer.
 Import ListNotations.
 
@@ -69,10 +76,17 @@ Definition tcp_events (es : list (N * bytes)) : list TcpAnalyzer.tcp_event :=
 Definition tcp_tokens (cap : N) (es : list (N * bytes)) : list bytes :=
   map TcpAnalyzer.tcp_out_line (snd (TcpAnalyzer.tcp_run mtu_table cap [] (tcp_events es))).
 
+Definition http_tokens (cap : N) (fs : list (N * bytes)) : list bytes :=
+  map http1_out_line (snd (http1_run (cache_new cap) (map snd fs))).
+
 Definition run_concrete (k c : bytes) (rest : list bytes) : bytes :=
   match read_N c, parse_events rest with
   | Some cap, Some evs =>
-      if bytes_eqb k (bs "L") then
+      if bytes_eqb k (bs "H") then
+        out3 (join (bs ";") (http_tokens cap (map snd evs)))
+             (if http1_within_capacityb (cache_new cap) (map (fun e => snd (snd e)) evs) then spec_alone (http_tokens cap) evs else bs "-")
+             false
+      else if bytes_eqb k (bs "L") then
         out3 (join (bs ";") (tls_tokens cap (map snd evs)))
              (if tls_within_capacityb cap [] (map (fun e => snd (snd e)) evs) then spec_alone (tls_tokens cap) evs else bs "-")
              false
@@ -90,7 +104,7 @@ Definition run_line (l : bytes) : bytes :=
         match parse_packets rest with
         | Some tr => out3 (join (bs ",") (map snd (replay_run tr))) (join (bs ",") (map snd tr)) false
         | None => bs "BADCASE" end
-      else if bytes_eqb p (bs "L") || bytes_eqb p (bs "T") then
+      else if bytes_eqb p (bs "L") || bytes_eqb p (bs "T") || bytes_eqb p (bs "H") then
         match rest with
         | c :: evs => run_concrete p c evs
         | [] => bs "BADCASE" end
@@ -108,6 +122,12 @@ Proof. vm_compute. reflexivity. Qed.
 Example run_line_ex_L :
   run_line (bs "l L 8 3:1000484:02000000000102000000000208004500003c12344000390600000a0100775db8d829757d00162f01a6ae00000000a002721000000000020405780402080a0010210b0000000001030307 3:1000819:02000000000102000000000208004500003412344000400600000a0100775db8d829757d00162f01a6af5a88adb08010ffff000000000101080a0010225a005985b8")
   = bs "-;-	-;-	0".
+Proof. vm_compute. reflexivity. Qed.
+
+(* kind H: one generated HTTP/1.1 connection (handshake, request, response, FIN) *)
+Example run_line_ex_H :
+  run_line (bs "h H 8 2:1000579:02000000000102000000000208004500003c12344000800600000a013d3b0a013d3b7e02005029261ae800000000a002faf000000000020405780402080a00064f3b0000000001030308 2:1000702:02000000000102000000000208004500003c12344000340600000a013d3b0a013d3b00507e02318c2dac29261ae9a012712000000000020405b40402080a00550dfa00064f3b01030307 2:1000889:02000000000102000000000208004500003412344000400600000a013d3b0a013d3b7e02005029261ae9318c2dad8010ffff000000000101080a0006507100550eb5 2:1000931:02000000000102000000000208004500003b12344000400600000a013d3b0a013d3b7e02005029261ae9318c2dad8018ffff000000000101080a0006509b00550edf474554202f3132 2:1001208:0200000000010200000000020800450000cc1234 2:1001300:02000000000102000000000208004500009812346000340600000a013d3b0a013d3b00507e02318c2dad29261b888018ffff000000000101080a005510500006520c485454502f312e3120323030204f4b0d0a5365727665723a204170616368652f322e342e343120285562756e7475290d0a436f6e74656e742d547970653a20746578742f68746d6c0d0a436f6e74656e742d4c656e6774683a20350d0a0d0a68656c6c6f 2:1001426:02000000000102000000000208004500003412344000400600000a013d3b0a013d3b7e02005029261b88318c2dad8011ffff000000000101080a0006528a005510ce")
+  = bs "-;-;-;-;-;R.11.200.536572766572=4170616368652f322e342e343120285562756e747529,436f6e74656e742d54797065=746578742f68746d6c,436f6e74656e742d4c656e677468=35;-	-;-;-;-;-;R.11.200.536572766572=4170616368652f322e342e343120285562756e747529,436f6e74656e742d54797065=746578742f68746d6c,436f6e74656e742d4c656e677468=35;-	0".
 Proof. vm_compute. reflexivity. Qed.
 
 Require Extraction.
